@@ -38,17 +38,33 @@ def stripRpc (id : Nat) (body : Bytes) : Option Bytes :=
     some ((body.drop pre.length).take (body.length - pre.length - rpcClose.length))
   else none
 
+/-- the session byte stream with the self-closing rewrite of the code AS IT IS (only used to
+classify a disagreement as the recorded defect) -/
+def wireAsIs (v : Version) (sc nh : Bool) (bodies : List Bytes) : Bytes :=
+  let raw (body : Bytes) : Bytes :=
+    let msg := if nh then body else Gen.Netconf.xmlHeader ++ body
+    if sc then forceSelfClosingGo Match.eligibleAsIs msg else msg
+  let framed (msg : Bytes) : Bytes :=
+    match v with
+    | .v10 => msg ++ Gen.Netconf.v1Dot0Delim
+    | .v11 => HASH :: (decDigits msg.length ++ LF :: (msg ++ [LF, HASH, HASH]))
+  clientHello v ++ ret ++
+    (bodies.map fun b => framed (raw b) ++ ret ++ (match v with | .v10 => [] | .v11 => ret)).flatten
+
 end C03
 
 open C03 in
 /-- line-protocol handler for property C03 (arguments after the leading `c03` token)
 
-* `fsc <hex>` → `<repaired model> <as-is model>` of `ForceSelfClosingTags`
+* `fsc <hex>` → `dom scanner go asis`: the single-pass scanner (the model the theorems are about),
+  the statement-by-statement model of the repaired Go function, the same for the code as it is;
+  `dom` = scanner and statement-by-statement model agree on this input
 * `chk <in> <out>` → `1` iff the proved checker accepts `Rewrites in out`
 * `session <v> <sc> <nh> <inners>` → `dom wire raws framed spec` : the model's byte stream of a
   session whose k-th marshalled payload is `inners[k]` (message-ids from `initialMessageID`),
   the reported inputs, the framed inputs, and whether the strict decoder recovers the inputs
   from the model wire (theorem `session_decodes`, evaluated)
+* `session-asis <v> <sc> <nh> <inners>` → the wire with the rewrite of the code as it is
 * `wire <v> <sc> <nh> <bodies>` → same for explicit marshalled rpc bodies
 * `decode <v> <wire>` → `none` | `some <hello> <msgs>` (strict RFC decoder on observed bytes)
 * `body <id> <hex>` → `1 <inner>` if the bytes are `rpcBody id inner`, else `0 -`
@@ -57,7 +73,10 @@ open C03 in
 def handleC03 : List String → String
   | ["fsc", h] =>
     match fromHex h with
-    | some b => s!"{toHex (forceSelfClosing b)} {toHex (forceSelfClosingAsIs b)}"
+    | some b =>
+      let sc := forceSelfClosing b
+      let go := forceSelfClosingGo Match.eligible b
+      s!"{b2s (sc == go)} {toHex sc} {toHex go} {toHex (forceSelfClosingGo Match.eligibleAsIs b)}"
     | none => "bad-op"
   | ["chk", a, b] =>
     match fromHex a, fromHex b with
@@ -75,6 +94,11 @@ def handleC03 : List String → String
       let dom := legal v rs
       let spec := strictDecode v w == some rs
       s!"{b2s dom} {toHex w} {showHexList rs} {showHexList (ser.map (·.2))} {b2s spec}"
+    | _, _ => "bad-op"
+  | ["session-asis", v, sc, nh, inners] =>
+    match ver v, hexList inners with
+    | some v, some inners =>
+      toHex (wireAsIs v (s2b sc) (s2b nh) (sessionBodies Gen.Netconf.initialMessageID inners))
     | _, _ => "bad-op"
   | ["wire", v, sc, nh, bodies] =>
     match ver v, hexList bodies with
